@@ -517,6 +517,7 @@ def run(rep, programs):
     from props import c01
     c01.r_toggle_dispatch(rep, prog)     # is_zero's mask is what the per-frame query reads
     c01.r_huge_coord(rep, prog)          # the counter that is charged and the bits that are flipped belong to one huge frame
+    c01.r_units(rep, prog)               # e.g. the frame handed to stats_at for a tree is that tree's first frame, not its number
     # the counter that is charged belongs to the tree the frame is taken from
     from props import c15
     c15.r_reserve_before_lower(rep, prog)
